@@ -51,6 +51,8 @@ ASSUMPTIONS = [
     "under the group's prefixes (collect keeps the first prefix's cache per remote); remotes start closed (C04)",
     "storage maps are built directly or through add_cache/add_remote; the oracle and the model reason about the map "
     "the helpers store (simulated independently); remotes may be attached read_only on either side",
+    "a FileExistsError upload fault honours its contract (the object IS there, put by somebody else) and is injected "
+    "on directory objects only: dvc_objects skips it silently for the first file of a batch and reports it for the others",
     "upload faults are injected per (destination store, object id) through put_file of the destination file system",
     "a directory entry that some prefix covers has a remote designated for its own key (else a fetch into an empty "
     "cache cannot load it: DataIndexDirError)",
@@ -97,6 +99,13 @@ def faultfs():
                 if self.attempts is not None:
                     self.attempts.append(oid)
                 if oid in self.fails:
+                    if self.eacces == "ENOENT":
+                        raise FileNotFoundError(2, "injected upload failure (no such file)")
+                    if self.eacces == "EEXIST":
+                        # the contract of FileExistsError: the target IS there (a concurrent writer put the
+                        # object); dvc_objects' generic.transfer skips it silently, so this is no failure
+                        super().put_file(lpath, rpath, callback=callback, **kwargs)
+                        raise FileExistsError(17, "injected: the object was put by somebody else meanwhile")
                     if self.eacces:
                         raise PermissionError(13, "injected upload failure (permission denied)")
                     raise OSError(5, "injected upload failure")
@@ -134,13 +143,13 @@ def effective(declared):
     StorageInfo; info.<role> = storage; map[storage.key] = info"""
     eff = []
     for p, info in declared:
-        for role in ("cache", "remote"):
+        for role in ("data", "cache", "remote"):
             if not info.get(role):
                 continue
             if any(is_prefix(q, p) for q, _ in eff):
-                cur = {r: resolve(eff, p, r) for r in ("cache", "remote")}
+                cur = {r: resolve(eff, p, r) for r in ("data", "cache", "remote")}
             else:
-                cur = {"cache": None, "remote": None}
+                cur = {"data": None, "cache": None, "remote": None}
             cur[role] = info[role]
             for e in eff:
                 if e[0] == p:
@@ -158,6 +167,7 @@ class Case:
         self.oid = {t: impl.md5hex(b) for t, b in self.content.items()}
         self.items = []
         self.dirs = {}  # dir token -> listing [(relpath, file token)]
+        self.explicit = set()   # directory entries whose children are explicit entries of the index (loaded=True)
         for it in case["items"]:
             if it[0] == "file":
                 self.items.append(("file", tuple(it[1]), it[2]))
@@ -172,35 +182,45 @@ class Case:
                     self.content[tok] = impl.canon_listing(entries)
                     self.dirs[tok] = lst
                 self.items.append(("dir", tuple(it[1]), tok))
+                if len(it) > 3 and it[3].get("explicit"):
+                    self.explicit.add(tuple(it[1]))
         self.tok = {o: t for t, o in self.oid.items()}
         assert len(self.tok) == len(self.oid), "two tokens with one id"
         self.tokens = list(self.oid)
         self.dmap = [(tuple(p), dict(info)) for p, info in case["map"]]      # as declared
         caches = sorted({i["cache"] for _, i in self.dmap if i.get("cache")})
         self.fresh = {c: "n" + c[1:] for c in caches}
-        self.dfmap = [(p, {"cache": self.fresh.get(i.get("cache")), "remote": i.get("remote")}) for p, i in self.dmap]
+        self.dfmap = [(p, {"data": i.get("data"), "cache": self.fresh.get(i.get("cache")), "remote": i.get("remote")})
+                      for p, i in self.dmap]
         self.via_add = bool(case.get("via_add"))
         # the map the implementation ends up with (what the oracle and the model reason about)
         self.map = effective(self.dmap) if self.via_add else self.dmap
         self.fmap = effective(self.dfmap) if self.via_add else self.dfmap
+        for mp in (self.map, self.fmap):
+            for _, i in mp:
+                i.setdefault("data", None)
         self.ro_push = set(case.get("ro_push") or [])
         self.ro_fetch = set(case.get("ro_fetch") or [])
         self.remotes = sorted({i["remote"] for _, i in self.map if i.get("remote")})
         self.caches = caches
         self.stores = caches + self.remotes + [self.fresh[c] for c in caches]
+        if any(i.get("data") == "x0" for _, i in self.dmap):
+            self.stores.append("x0")     # an (empty) object store in the data role: nothing may ever reach it
         tmp = set(case.get("tmp") or [])
         self.tmp = tmp | {self.fresh[c] for c in caches if c in tmp}
         self.indexed = [r for r in self.remotes if r in self.tmp]
 
     def sid(self, s):
-        return {"c": 10, "r": 20, "n": 30}[s[0]] + int(s[1:])
+        if s == "file":
+            return 41                    # a FileStorage in the data role: no object store
+        return {"c": 10, "r": 20, "n": 30, "x": 40}[s[0]] + int(s[1:])
 
     # entries an iteration over the loaded index reaches under map m
     def entries(self, smap):
         out = []
         for kind, k, t in self.items:
             out.append((k, t))
-            if kind == "dir" and covered(smap, k):
+            if kind == "dir" and (covered(smap, k) or k in self.explicit):
                 for rp, f in self.dirs[t]:
                     out.append((k + tuple(rp.split("/")), f))
         return out
@@ -292,30 +312,69 @@ def listing(path, C):
     return out
 
 
-def build_index(C, declared, odbs, ro=()):
+def build_index(C, declared, odbs, ro=(), root=None, split=False):
+    """the index (or, split=True, two indexes with the same mapping that hold alternate items)"""
+    from dvc_objects.fs.local import localfs
+
     from dvc_data.hashfile.hash_info import HashInfo
     from dvc_data.hashfile.meta import Meta
-    from dvc_data.index import DataIndex, DataIndexEntry, ObjectStorage, StorageInfo
+    from dvc_data.index import DataIndex, DataIndexEntry, FileStorage, ObjectStorage, StorageInfo
 
-    idx = DataIndex()
-    for kind, k, t in C.items:
-        idx[k] = DataIndexEntry(key=k, meta=Meta(isdir=(kind == "dir")), hash_info=HashInfo("md5", C.oid[t]))
+    case = C.case
+    label = bool(case.get("obj_name"))
+
+    def hi(t, k):
+        return HashInfo("md5", C.oid[t], obj_name="/".join(k) or "root") if label else HashInfo("md5", C.oid[t])
+
+    def new_index():
+        if case.get("backend") == "sqlite":
+            import tempfile
+
+            return DataIndex.open(tempfile.mktemp(prefix="idx-", suffix=".db", dir=root))
+        return DataIndex()
+
+    idxs = [new_index(), new_index()] if split else [new_index()]
+    for n, (kind, k, t) in enumerate(C.items):
+        idx = idxs[n % len(idxs)]
+        if kind == "dir" and k in C.explicit:
+            idx[k] = DataIndexEntry(key=k, meta=Meta(isdir=True), hash_info=hi(t, k), loaded=True)
+            inter = set()
+            for rp, f in C.dirs[t]:
+                parts = tuple(rp.split("/"))
+                for j in range(1, len(parts)):
+                    inter.add(k + parts[:j])
+                idx[k + parts] = DataIndexEntry(key=k + parts, meta=Meta(), hash_info=hi(f, k + parts))
+            for ik in sorted(inter):
+                idx[ik] = DataIndexEntry(key=ik, meta=Meta(isdir=True), loaded=True)
+        else:
+            idx[k] = DataIndexEntry(key=k, meta=Meta(isdir=(kind == "dir")), hash_info=hi(t, k))
 
     def remote(p, r):
         return ObjectStorage(p, odbs[r], read_only=True) if r in ro else ObjectStorage(p, odbs[r])
 
-    for p, info in declared:
-        if C.via_add:
-            if info.get("cache"):
-                idx.storage_map.add_cache(ObjectStorage(p, odbs[info["cache"]]))
-            if info.get("remote"):
-                idx.storage_map.add_remote(remote(p, info["remote"]))
-        else:
-            idx.storage_map[p] = StorageInfo(
-                cache=ObjectStorage(p, odbs[info["cache"]]) if info.get("cache") else None,
-                remote=remote(p, info["remote"]) if info.get("remote") else None,
-            )
-    return idx
+    def data(p, d):
+        if d == "file":
+            return FileStorage(p, localfs, os.path.join(root or "/nonexistent", "no-such-workspace"))
+        return ObjectStorage(p, odbs[d])
+
+    for idx in idxs:
+        if case.get("backend") == "sqlite":
+            idx.commit()
+        for p, info in declared:
+            if C.via_add:
+                if info.get("data"):
+                    idx.storage_map.add_data(data(p, info["data"]))
+                if info.get("cache"):
+                    idx.storage_map.add_cache(ObjectStorage(p, odbs[info["cache"]]))
+                if info.get("remote"):
+                    idx.storage_map.add_remote(remote(p, info["remote"]))
+            else:
+                idx.storage_map[p] = StorageInfo(
+                    data=data(p, info["data"]) if info.get("data") else None,
+                    cache=ObjectStorage(p, odbs[info["cache"]]) if info.get("cache") else None,
+                    remote=remote(p, info["remote"]) if info.get("remote") else None,
+                )
+    return idxs
 
 
 def observe_groups(groups, paths, C):
@@ -326,6 +385,20 @@ def observe_groups(groups, paths, C):
         c = paths[si.cache.odb.path] if si.cache is not None else None
         out.append((d, c, {C.tok.get(e.hash_info.value, "?") for _, e in g.iteritems() if e.hash_info}))
     return out
+
+
+def ws_files(ws):
+    """{relpath: bytes} of a checked-out workspace; a single file checked out AT the path is {"": bytes}"""
+    if os.path.isdir(ws):
+        return impl.walk_files(ws)
+    if os.path.isfile(ws):
+        with open(ws, "rb") as f:
+            return {"": f.read()}
+    return {}
+
+
+def jp(k, rp=None):
+    return "/".join(list(k) + (rp.split("/") if rp else []))
 
 
 def run_real(ctx, C):
@@ -345,7 +418,7 @@ def run_real(ctx, C):
         path[s] = os.path.join(root, s)
         os.makedirs(path[s])
         fss[s] = faultfs()
-        fss[s].eacces = bool(case.get("eacces"))
+        fss[s].eacces = case.get("efault") or bool(case.get("eacces"))
         cls = LocalHashFileDB if case["cls"].get(s, "local") == "local" else HashFileDB
         cfg = {}
         if s in C.tmp:
@@ -371,20 +444,47 @@ def run_real(ctx, C):
     for r, toks in (case.get("pre") or {}).items():
         for t in toks:
             impl.plant(path[r], C.oid[t], C.content[t], mode=None)
+    for n, toks in (case.get("cache_pre") or {}).items():
+        if n in path:
+            for t in toks:
+                impl.plant(path[n], C.oid[t], C.content[t])
     obs = {"initial": {s: listing(path[s], C) for s in C.stores}, "rounds": []}
 
     def snapshot():
         return {s: listing(path[s], C) for s in C.stores}
 
-    def one(kind, idx, fails):
+    shared_ci = {}
+
+    def one(kind, idx, fails, wipe=()):
+        for r in wipe:     # the remote lost everything behind its index's back (the index survives in its tmp_dir)
+            for d in os.listdir(path[r]):
+                dp = os.path.join(path[r], d)
+                for n in os.listdir(dp):
+                    os.chmod(os.path.join(dp, n), 0o644)
+                    os.unlink(os.path.join(dp, n))
         for s in C.stores:
             fss[s].fails = frozenset(C.oid[t] for d, t in fails if d == s)
             fss[s].attempts = []
-        rd = {"kind": kind, "fails": [list(f) for f in fails], "before": snapshot()}
+        # an EEXIST "fault" leaves the object in place: for the oracle and the model it is a successful upload
+        seen_fails = [] if case.get("efault") == "EEXIST" else fails
+        rd = {"kind": kind, "fails": [list(f) for f in seen_fails], "before": snapshot(), "wipe": list(wipe)}
         try:
-            groups = collect([idx], "remote", push=(kind == "push"))
+            from dvc_data.index import DataIndex
+
+            ckw = {}
+            mode = case.get("cache_index") or "none"
+            if mode == "fresh":
+                ckw = {"cache_index": DataIndex(), "cache_key": ("ck", kind)}
+            elif mode == "shared":    # one cache index for all rounds of a kind: later rounds find the node and skip
+                ckw = {"cache_index": shared_ci.setdefault(kind, DataIndex()), "cache_key": ("ck", kind)}
+            groups = collect(idx, "remote", push=(kind == "push"), **ckw)
             rd["groups"] = observe_groups(groups, paths, C)
-            rd["result"] = tuple((push if kind == "push" else fetch)(groups, jobs=1))
+            kw = {"jobs": case.get("jobs", 1)}
+            if case.get("callback"):
+                from fsspec.callbacks import Callback
+
+                kw["callback"] = Callback()
+            rd["result"] = tuple((push if kind == "push" else fetch)(groups, **kw))
             rd["err"] = None
         except Exception as exc:  # noqa: BLE001
             rd["err"] = (impl.err_code(exc), repr(exc)[:200])
@@ -397,9 +497,14 @@ def run_real(ctx, C):
             fss[s].fails = frozenset()
         obs["rounds"].append(rd)
 
-    pidx = build_index(C, C.dmap, odbs, C.ro_push)
+    split = bool(case.get("split_index"))
+    pidx = build_index(C, C.dmap, odbs, C.ro_push, root, split)
     one("push", pidx, [tuple(f) for f in case.get("fails") or []])
+    if case.get("fresh_index_per_round"):
+        pidx = build_index(C, C.dmap, odbs, C.ro_push, root, split)
     one("push", pidx, [])
+    if case.get("wipe"):
+        one("push", pidx, [], wipe=[r for r in case["wipe"] if r in C.remotes])
     obs["checkout"] = None
     if C.klass() is not None:
         after = obs["rounds"][-1]["after"]
@@ -414,9 +519,11 @@ def run_real(ctx, C):
         # a read_only remote received nothing: the consumer side has nothing to fetch from it
         impl.rm_rf(root)
         return obs
-    fidx = build_index(C, C.dfmap, odbs, C.ro_fetch)
+    fidx = build_index(C, C.dfmap, odbs, C.ro_fetch, root, split)
     if case.get("ffails"):
         one("fetch", fidx, [tuple(f) for f in case["ffails"]])
+        if case.get("fresh_index_per_round"):
+            fidx = build_index(C, C.dfmap, odbs, C.ro_fetch, root, split)
     one("fetch", fidx, [])
     # the checkout is judged when every entry has been given a remote and a cache (else an entry that
     # nothing could fetch stops the checkout part-way, which is C09's subject)
@@ -426,13 +533,14 @@ def run_real(ctx, C):
         ws = os.path.join(root, "ws")
         errs = []
         try:
-            cidx = build_index(C, C.dfmap, odbs, C.ro_fetch)
+            cidx = build_index(C, C.dfmap, odbs, C.ro_fetch, root)[0]
             diff = compare(None, cidx)
-            apply(diff, ws, localfs, storage="cache", onerror=lambda *a: errs.append(a))
-            obs["checkout"] = {"files": impl.walk_files(ws) if os.path.isdir(ws) else {}, "errors": len(errs)}
+            akw = {"links": list(case["links"])} if case.get("links") else {}
+            apply(diff, ws, localfs, storage="cache", onerror=lambda *a: errs.append(a), **akw)
+            obs["checkout"] = {"files": ws_files(ws), "dirs": impl.walk_dirs(ws) if os.path.isdir(ws) else [],
+                               "errors": len(errs)}
         except Exception as exc:  # noqa: BLE001
-            obs["checkout"] = {"files": impl.walk_files(ws) if os.path.isdir(ws) else {}, "errors": -1,
-                               "exc": repr(exc)[:200]}
+            obs["checkout"] = {"files": ws_files(ws), "dirs": [], "errors": -1, "exc": repr(exc)[:200]}
     impl.rm_rf(root)
     return obs
 
@@ -538,18 +646,19 @@ def judge(C, obs):
     last_fetch = max([i for i, k in enumerate(kinds) if k == "fetch"] or [-1])
     for i, rd in enumerate(rounds):
         smap = C.map if rd["kind"] == "push" else C.fmap
-        check_round(i, rd, smap, None, None, i in (last_push, last_fetch))
+        final = (i == last_fetch) or (rd["kind"] == "push" and i >= 1 and not rd["fails"])
+        check_round(i, rd, smap, None, None, final)
     co = obs.get("checkout")
     if co is not None and not problems:
         want = {}
         for kind, k, t in C.items:
             if kind == "file":
-                want["/".join(k)] = C.content[t]
+                want[jp(k)] = C.content[t]
             else:
                 for rp, f in C.dirs[t]:
-                    want["/".join(k) + "/" + rp] = C.content[f]
+                    want[jp(k, rp)] = C.content[f]
         # only keys whose remote is designated can have been fetched
-        fetched = {"/".join(k) for k, t in C.entries(C.fmap)
+        fetched = {jp(k) for k, t in C.entries(C.fmap)
                    if resolve(C.fmap, k, "remote") is not None and resolve(C.fmap, k, "cache") is not None}
         want = {p: b for p, b in want.items() if p in fetched}
         got = {p: b for p, b in co["files"].items() if p in want}
@@ -558,6 +667,11 @@ def judge(C, obs):
             problems.append(("C18:checkout-differs",
                              f"checkout from the fetched caches: missing {miss}, "
                              f"wrong {sorted(p for p in got if got[p] != want[p])}"))
+    if co is not None and not problems:
+        for kind, k, t in C.items:
+            if kind == "dir" and not C.dirs[t] and k and jp(k) not in co.get("dirs", []):
+                problems.append(("C18:checkout-empty-directory-missing",
+                                 f"checkout from the fetched caches did not create the empty directory {jp(k)}"))
     kl = C.klass()
     if kl is not None:
         sig = SIG_MULTI if kl == "multi" else SIG_SPLIT
@@ -579,8 +693,8 @@ def coid(t):
 
 def csmap(C, smap):
     def info(i):
-        return ("{| si_data := None; si_cache := %s; si_remote := %s |}"
-                % (copt(i.get("cache"), lambda s: cN(C.sid(s))), copt(i.get("remote"), lambda s: cN(C.sid(s)))))
+        return ("{| si_data := %s; si_cache := %s; si_remote := %s |}"
+                % tuple(copt(i.get(r), lambda s: cN(C.sid(s))) for r in ("data", "cache", "remote")))
     return clist([cpair(ckey(p), info(i)) for p, i in smap])
 
 
@@ -591,6 +705,12 @@ def model_terms(C, obs):
         if kind == "file":
             items.append(f"IFile {ckey(k)} {coid(t)}")
         else:
+            if k in C.explicit:
+                # explicit children are entries of their own: visible whether or not a prefix covers the directory
+                items.append(f"IDir {ckey(k)} {coid(t)} []")
+                for rp, f in C.dirs[t]:
+                    items.append(f"IFile {ckey(k + tuple(rp.split('/')))} {coid(f)}")
+                continue
             lst = clist([cpair(ckey(tuple(rp.split('/'))), coid(f)) for rp, f in C.dirs[t]])
             items.append(f"IDir {ckey(k)} {coid(t)} {lst}")
     parse = clist([cpair(f"[{ctab[d]}]", clist([coid(f) for _, f in C.dirs[d]])) for d in C.dirs])
@@ -601,9 +721,9 @@ def model_terms(C, obs):
         smap = C.map if rd["kind"] == "push" else C.fmap
         fails = clist([cpair(cN(C.sid(d)), coid(t)) for d, t in rd["fails"]])
         ro = sorted(C.ro_push) if rd["kind"] == "push" else sorted(C.ro_fetch)
-        rounds.append("{| r_kind := %s; r_map := %s; r_fails := %s; r_ro := %s |}"
+        rounds.append("{| r_kind := %s; r_map := %s; r_fails := %s; r_ro := %s; r_wipe := %s |}"
                       % ("RPush" if rd["kind"] == "push" else "RFetch", csmap(C, smap), fails,
-                         clist([cN(C.sid(r)) for r in ro])))
+                         clist([cN(C.sid(r)) for r in ro]), clist([cN(C.sid(r)) for r in rd.get("wipe") or []])))
     co = obs.get("checkout")
     if co is not None and co.get("errors"):
         co = None  # a checkout that hit a missing object stops part-way (C09's subject); the oracle judges it
@@ -643,8 +763,8 @@ def model_terms(C, obs):
 # generators
 
 CONTENTS = [b"alpha", b"beta", b"", b"gamma\r\n", b"delta", b"alpha-2"]
-ITEM_KEYS = [("d",), ("e",), ("p", "q"), ("f",), ("p", "r"), ("g", "h", "i")]
-RELPATHS = ["a", "b", "sub/b", "sub/c", "sub/deep/e", "z"]
+ITEM_KEYS = [("d",), ("e",), ("p", "q"), ("f",), ("p", "r"), ("g", "h", "i"), ("n s", "\u00e9"), (".k",)]
+RELPATHS = ["a", "b", "sub/b", "sub/c", "sub/deep/e", "z", "sub/\u0444 \u6f22.txt", ".h"]
 
 
 def gen_base(rng):
@@ -750,6 +870,76 @@ def gen_shared(rng):
             tmp.append(r)
     return {"files": files, "items": items, "map": smap, "cls": cls, "pre": {}, "topup": True, "fails": [],
             "tmp": tmp, "via_add": rng.random() < 0.35}
+
+
+def gen_root(rng):
+    """the whole index is one entry at the root key ()"""
+    nfile = rng.choice([2, 3, 4])
+    files = {f"f{i}": CONTENTS[i].hex() for i in range(nfile)}
+    ftoks = list(files)
+    if rng.random() < 0.25:
+        items = [["file", [], rng.choice(ftoks)]]
+        inner = []
+    else:
+        rps = rng.sample(RELPATHS, rng.randint(0, 4))
+        items = [["dir", [], [[rp, rng.choice(ftoks)] for rp in sorted(rps)]]]
+        inner = [("sub",), ("sub", "deep"), ("a",)]
+    smap = [[[], {"cache": "c0", "remote": "r0"}]]
+    cls = {"r0": rng.choice(["base", "local"])}
+    if inner and rng.random() < 0.6:
+        smap.append([list(rng.choice(inner)), {"cache": None, "remote": "r1"}])
+        cls["r1"] = rng.choice(["base", "local"])
+        rng.shuffle(smap)
+    tmp = [s for s in ["c0"] + sorted(cls) if rng.random() < 0.3]
+    return {"files": files, "items": items, "map": smap, "cls": cls, "pre": {}, "topup": True, "fails": [],
+            "tmp": tmp, "via_add": rng.random() < 0.35}
+
+
+def sample_routes(rng, base):
+    """dimensions that belong to the index / the mapping (they change what the model sees)"""
+    for it in base["items"]:
+        if it[0] == "dir" and len(it) == 3 and rng.random() < 0.3:
+            it.append({"explicit": True})
+    if rng.random() < 0.25:
+        rng.choice(base["map"])[1]["data"] = rng.choice(["file", "x0"])
+
+
+def sample_flags(rng, c, C):
+    """dimensions that must not change the outcome: every flag of push / fetch / collect / apply, the construction
+    route of the index, the kind of the injected error"""
+    c["jobs"] = rng.choice([1, 1, None, 4])
+    if rng.random() < 0.3:
+        c["callback"] = True
+    c["cache_index"] = rng.choice(["none", "none", "fresh", "shared"])
+    if len(c["items"]) >= 2 and rng.random() < 0.2:
+        c["split_index"] = True
+    if rng.random() < 0.2:
+        c["backend"] = "sqlite"
+    if rng.random() < 0.3:
+        c["fresh_index_per_round"] = True
+    if rng.random() < 0.3:
+        c["obj_name"] = True
+    c["links"] = rng.choice([None, ["copy"], ["symlink"], ["hardlink"], ["reflink", "copy"]])
+    if c.get("fails"):
+        c.pop("eacces", None)
+        kinds = ["EIO", "EACCES", "ENOENT"]
+        if all(t in C.dirs for _, t in c["fails"]) and not c.get("ffails"):
+            # FileExistsError: dvc_objects' generic.transfer skips it ("already exists") only for the file that
+            # goes through the link probe, i.e. the first of a batch; a directory object is always a batch of its own
+            kinds.append("EEXIST")
+        c["efault"] = rng.choice(kinds)
+    if C.klass() is None and not C.ro_push:
+        if rng.random() < 0.2:
+            n = rng.choice([C.fresh[x] for x in C.caches])
+            reach = sorted(C.reachable())
+            pick = set(rng.sample(reach, rng.randint(1, len(reach))))
+            for d in list(pick):
+                if d in C.dirs and not all(f in pick for _, f in C.dirs[d]):
+                    pick.discard(d)
+            if pick:
+                c["cache_pre"] = {n: sorted(pick)}
+        if rng.random() < 0.15:
+            c["wipe"] = [rng.choice(C.indexed or C.remotes)]
 
 
 def usable(case, rng=None):
@@ -924,6 +1114,223 @@ CORPUS += [
 ]
 
 
+LONG = "L" * 200
+CORPUS += [
+    # names: backslash, space, leading dot, Cyrillic, CJK, emoji, NFD next to its NFC twin, a name ending in .dir,
+    # siblings one of which is a string prefix of the other, 1 and 200 characters, names differing only in case;
+    # a prefix ("imgs",) that is NOT a key of any entry and must not capture imgs_raw / imgs.bak
+    {"files": {"f0": b"x1".hex(), "f1": b"".hex(), "f2": b"x8".hex()},
+     "items": [["dir", ["we\\ird dir"],
+                [["a b.txt", "f0"], [".hidden", "f1"], ["\u043a\u0438\u0440.txt", "f0"], ["\u6f22\u5b57/\U0001f600.bin", "f2"],
+                 ["cafe\u0301.txt", "f1"], ["caf\u00e9.txt", "f2"], ["x.dir", "f0"], ["imgs/1", "f1"], ["imgs_raw/1", "f2"],
+                 ["imgs.bak", "f0"], ["q", "f2"], [LONG, "f1"], ["Case/f", "f0"], ["case", "f2"]]],
+               ["file", ["imgs_raw", "f"], "f2"], ["file", ["imgs.bak"], "f0"], ["file", [".dot", "\u00e9"], "f1"]],
+     "map": [[[], {"cache": "c0", "remote": "r0"}], [["imgs"], {"cache": None, "remote": "r1"}],
+             [["we\\ird dir", "imgs"], {"cache": None, "remote": "r1"}]],
+     "cls": {"r0": "base", "r1": "local"}, "pre": {}, "topup": True, "fails": [["r0", "f1"]], "efault": "ENOENT",
+     "links": ["symlink"], "jobs": 4},
+    # the whole index is ONE directory entry at the root key (), mapped at (), a prefix inside it re-routing sub/
+    {"files": {"f0": b"A".hex(), "f1": b"".hex(), "f2": b"C".hex()},
+     "items": [["dir", [], [["a", "f0"], ["sub/b", "f1"], ["sub/deep/c", "f2"], ["z", "f0"]]]],
+     "map": [[[], {"cache": "c0", "remote": "r0"}], [["sub"], {"cache": None, "remote": "r1"}]],
+     "cls": {"r0": "base", "r1": "base"}, "pre": {}, "topup": True, "fails": [["r0", "d0.dir"]], "efault": "EEXIST",
+     "links": ["hardlink"], "cache_index": "shared", "tmp": ["r0"]},
+    # ... the same through an SQLite-backed index with explicit children
+    {"files": {"f0": b"A".hex(), "f1": b"".hex(), "f2": b"C".hex()},
+     "items": [["dir", [], [["a", "f0"], ["sub/b", "f1"], ["sub/deep/c", "f2"]], {"explicit": True}]],
+     "map": [[[], {"cache": "c0", "remote": "r0"}]],
+     "cls": {"r0": "local"}, "pre": {}, "topup": True, "fails": [["r0", "f2"]], "backend": "sqlite",
+     "links": ["copy"], "callback": True, "fresh_index_per_round": True},
+    # a single FILE entry at the root key
+    {"files": {"f0": b"only".hex()},
+     "items": [["file", [], "f0"]],
+     "map": [[[], {"cache": "c0", "remote": "r0"}]],
+     "cls": {"r0": "base"}, "pre": {}, "topup": True, "fails": [["r0", "f0"]], "jobs": None},
+    # shapes: an empty directory (the oid of the empty listing), a directory with one file, depth 3 with an
+    # intermediate directory holding only a sub-directory, identical contents in one directory and across prefixes,
+    # file and directory ids ending in "d" (x1, x8; the listing of y5)
+    {"files": {"f0": b"x1".hex(), "f1": b"x8".hex(), "f2": b"y5".hex(), "f3": b"".hex()},
+     "items": [["dir", ["empty"], []], ["dir", ["one"], [["a", "f2"]]],
+               ["dir", ["deep"], [["x/y/z/f", "f0"], ["x/y/z/g", "f0"], ["t", "f3"]]],
+               ["file", ["other", "f"], "f0"], ["file", ["other", "g"], "f1"]],
+     "map": [[[], {"cache": "c0", "remote": "r0"}], [["other"], {"cache": None, "remote": "r1"}],
+             [["deep", "x", "y"], {"cache": None, "remote": "r2"}]],
+     "cls": {"r0": "base", "r1": "base", "r2": "local"}, "pre": {}, "topup": True, "fails": [["r2", "f0"]],
+     "obj_name": True, "links": ["reflink", "copy"], "split_index": True, "cache_index": "fresh"},
+    # mappings: three prefixes nested 3 deep with every role combination, a FileStorage and an ObjectStorage in
+    # the data role, a role-less prefix, direct construction
+    {"files": {"f0": b"A".hex(), "f1": b"B".hex(), "f2": b"C".hex()},
+     "items": [["file", ["p", "q", "r", "x"], "f0"], ["dir", ["p", "q", "d"], [["a", "f1"], ["b", "f2"]]],
+               ["file", ["p", "y"], "f1"], ["file", ["z"], "f2"]],
+     "map": [[[], {"data": "file", "cache": "c0", "remote": "r0"}], [["p"], {"data": "x0", "cache": None, "remote": "r1"}],
+             [["p", "q"], {"data": None, "cache": "c0", "remote": None}], [["p", "q", "r"], {"cache": None, "remote": "r2"}],
+             [["nowhere"], {"cache": None, "remote": None}]],
+     "cls": {"r0": "base", "r1": "local", "r2": "base"}, "pre": {}, "topup": True, "fails": [["r1", "f1"], ["r1", "d0.dir"]],
+     "efault": "EACCES"},
+    # the same roles registered through add_data / add_cache / add_remote, child before parent
+    {"files": {"f0": b"A".hex(), "f1": b"B".hex()},
+     "items": [["file", ["p", "q", "x"], "f0"], ["file", ["p", "y"], "f1"], ["file", ["z"], "f0"]],
+     "map": [[["p", "q"], {"data": "x0", "cache": None, "remote": "r1"}], [["p"], {"data": "file", "cache": "c0", "remote": None}],
+             [[], {"cache": "c0", "remote": "r0"}]],
+     "cls": {"r0": "base", "r1": "base"}, "pre": {}, "topup": True, "fails": [], "via_add": True},
+    # state: a remote with a real index loses everything behind the index's back (stale index), a third push
+    # must bring it all back; the fresh cache already holds part of the objects
+    {"files": {"f0": b"A".hex(), "f1": b"B".hex(), "f2": b"C".hex()},
+     "items": [["dir", ["d"], [["a", "f0"], ["sub/b", "f1"]]], ["file", ["f"], "f2"]],
+     "map": [[[], {"cache": "c0", "remote": "r0"}]],
+     "cls": {"r0": "base"}, "pre": {}, "topup": True, "fails": [["r0", "f1"]], "tmp": ["r0", "c0"], "wipe": ["r0"],
+     "cache_pre": {"n0": ["f0", "f2"]}},
+    # faults on the directory object itself and on the first / last upload of a batch, each kind of error
+    {"files": {"f0": b"A".hex(), "f1": b"B".hex(), "f2": b"C".hex(), "f3": b"D".hex()},
+     "items": [["dir", ["d"], [["a", "f0"], ["b", "f1"], ["c", "f2"]]], ["file", ["f"], "f3"]],
+     "map": [[[], {"cache": "c0", "remote": "r0"}]],
+     "cls": {"r0": "base"}, "pre": {}, "topup": True, "fails": [["r0", "d0.dir"]], "efault": "EIO"},
+    {"files": {"f0": b"A".hex(), "f1": b"B".hex(), "f2": b"C".hex(), "f3": b"D".hex()},
+     "items": [["dir", ["d"], [["a", "f0"], ["b", "f1"], ["c", "f2"]]], ["file", ["f"], "f3"]],
+     "map": [[[], {"cache": "c0", "remote": "r0"}]],
+     "cls": {"r0": "local"}, "pre": {}, "topup": True, "fails": [["r0", "f0"], ["r0", "f2"], ["r0", "f3"]],
+     "efault": "ENOENT", "ffails": [["n0", "d0.dir"]]},
+]
+
+
+def dimensions(C, obs):
+    """the input dimensions of tools/COVERAGE_AUDIT.md this case has"""
+    import unicodedata
+
+    case = C.case
+    d = []
+    names = set()
+    for _, k, t in C.items:
+        names.update(k)
+    for lst in C.dirs.values():
+        for rp, _ in lst:
+            names.update(rp.split("/"))
+    for p, _ in C.dmap:
+        names.update(p)
+    for n in names:
+        if "\\" in n:
+            d.append("name:backslash")
+        if " " in n:
+            d.append("name:space")
+        if n.startswith("."):
+            d.append("name:leading-dot")
+        if any(ord(ch) > 127 for ch in n):
+            d.append("name:non-ascii")
+        if unicodedata.normalize("NFC", n) != n:
+            d.append("name:not-NFC")
+        if n.endswith(".dir"):
+            d.append("name:ends-with-.dir")
+        if len(n) == 1:
+            d.append("name:1-char")
+        if len(n) >= 200:
+            d.append("name:200-chars")
+        if any(m != n and m.startswith(n) for m in names):
+            d.append("name:string-prefix-of-sibling")
+        if any(m != n and m.lower() == n.lower() for m in names):
+            d.append("name:case-twin")
+    for kind, k, t in C.items:
+        if not k:
+            d.append("shape:%s-entry-at-root-key" % ("directory" if kind == "dir" else "file"))
+        if kind == "dir":
+            lst = C.dirs[t]
+            d.append("shape:explicit-children" if k in C.explicit else "shape:lazily-loaded-directory")
+            if not lst:
+                d.append("shape:empty-directory")
+            if len(lst) == 1:
+                d.append("shape:directory-with-one-file")
+            if any(rp.count("/") >= 3 for rp, _ in lst):
+                d.append("shape:depth>=3-intermediate-only-subdirs")
+            fl = [f for _, f in lst]
+            if len(set(fl)) < len(fl):
+                d.append("shape:identical-contents-in-one-directory")
+            if C.oid[t][:-4].endswith("d"):
+                d.append("id:directory-id-ends-in-d")
+            if C.oid[t] == "d751713988987e9331980363e24189ce.dir":
+                d.append("id:empty-listing")
+    es = C.entries(C.map)
+    byt = {}
+    for k, t in es:
+        byt.setdefault(t, set()).add(resolve(C.map, k, "remote"))
+    if any(len(v - {None}) > 1 for v in byt.values()):
+        d.append("shape:identical-contents-across-remotes")
+    if any(C.content[t] == b"" for _, t in es):
+        d.append("shape:zero-length-file")
+    if any(t not in C.dirs and C.oid[t].endswith("d") for _, t in es):
+        d.append("id:file-id-ends-in-d")
+    if len({t for kind, _, t in C.items if kind == "dir"}) < sum(1 for kind, _, _ in C.items if kind == "dir"):
+        d.append("shape:one-directory-object-under-two-keys")
+    if case.get("obj_name"):
+        d.append("id:obj_name-label")
+    keys = {k for _, k, _ in C.items}
+    dirkeys = {k for kind, k, _ in C.items if kind == "dir"}
+    for p, i in C.dmap:
+        d.append("map:roles=" + ("+".join(r for r in ("data", "cache", "remote") if i.get(r)) or "none"))
+        if i.get("data") == "file":
+            d.append("map:data-role-FileStorage")
+        if i.get("data") == "x0":
+            d.append("map:data-role-ObjectStorage")
+        if p not in keys and not any(is_prefix(k, p) for k in dirkeys):
+            d.append("map:prefix-not-a-key-of-any-entry")
+        if any(len(p) > len(k) and is_prefix(k, p) for k in dirkeys):
+            d.append("map:prefix-strictly-inside-directory")
+        if p in dirkeys:
+            d.append("map:prefix-is-directory-key")
+    chain = max((sum(1 for q, _ in C.dmap if is_prefix(q, p)) for p, _ in C.dmap), default=0)
+    if chain >= 3:
+        d.append("map:nested-3-deep")
+    rem = [resolve(C.map, p, "remote") for p, _ in C.map]
+    if any(r is not None and rem.count(r) > 1 for r in rem):
+        d.append("map:same-remote-under-several-prefixes")
+    d.append("route:add_*-helpers" if C.via_add else "route:direct-StorageInfo")
+    if any(is_prefix(q, p) and q != p for n, (p, _) in enumerate(C.dmap) for q, _ in C.dmap[n + 1:]):
+        d.append("route:child-registered-before-parent")
+    if any(is_prefix(p, q) and q != p for n, (p, _) in enumerate(C.dmap) for q, _ in C.dmap[n + 1:]):
+        d.append("route:parent-registered-before-child")
+    d.append("route:index-backend=" + (case.get("backend") or "memory"))
+    if case.get("split_index"):
+        d.append("route:two-indexes-in-one-collect")
+    if case.get("fresh_index_per_round"):
+        d.append("route:fresh-index-object-for-the-retry")
+    d.append("flag:jobs=%s" % case.get("jobs", 1))
+    d.append("flag:callback=" + ("non-default" if case.get("callback") else "default"))
+    d.append("flag:cache_index=" + (case.get("cache_index") or "none"))
+    d.append("flag:checkout-links=" + ("+".join(case["links"]) if case.get("links") else "default"))
+    if C.ro_push:
+        d.append("flag:read_only-remote-on-push")
+    if C.ro_fetch:
+        d.append("flag:read_only-remote-on-fetch")
+    d.append("state:remote-index=" + ("real" if C.indexed else "noop"))
+    if any(c in C.tmp for c in C.caches):
+        d.append("state:cache-with-tmp_dir")
+    if case.get("pre"):
+        d.append("state:remote-prepopulated")
+    if case.get("cache_pre"):
+        d.append("state:fetch-cache-prepopulated")
+    if case.get("wipe"):
+        d.append("state:remote-emptied-behind-its-index(stale)" if set(case["wipe"]) & set(C.indexed)
+                 else "state:remote-emptied-between-pushes")
+    fails = [tuple(f) for f in case.get("fails") or []]
+    if fails:
+        d.append("fault:kind=" + (case.get("efault") or ("EACCES" if case.get("eacces") else "EIO")))
+        if any(t in C.dirs for _, t in fails):
+            d.append("fault:on-the-directory-object")
+        if any(t not in C.dirs for _, t in fails):
+            d.append("fault:on-a-file")
+        r0 = obs["rounds"][0]
+        for s, att in (r0.get("attempts") or {}).items():
+            bad = [C.tok.get(o) for o in att]
+            if bad and (s, bad[0]) in fails:
+                d.append("fault:first-upload-of-the-round")
+            if bad and (s, bad[-1]) in fails:
+                d.append("fault:last-upload-of-the-round")
+        d.append("fault:retry-after-partial-failure")
+    if case.get("ffails"):
+        d.append("fault:in-fetch")
+    if obs.get("checkout") is not None:
+        d.append("checkout:judged")
+    return sorted(set(d))
+
+
 def features(C, obs):
     f = []
     f.append(f"prefixes:{len(C.map)}")
@@ -1033,7 +1440,9 @@ def run(ctx):
     tries = 0
     while made < nbase and tries < nbase * 30:
         tries += 1
-        base = gen_shared(ctx.rng) if ctx.rng.random() < 0.25 else gen_base(ctx.rng)
+        x = ctx.rng.random()
+        base = gen_shared(ctx.rng) if x < 0.25 else gen_root(ctx.rng) if x < 0.35 else gen_base(ctx.rng)
+        sample_routes(ctx.rng, base)
         C = usable(base, ctx.rng)
         if C is None:
             ctx.count("generator:rejected")
@@ -1058,20 +1467,22 @@ def run(ctx):
         for fs in subsets:
             c = dict(base)
             c["fails"] = [list(f) for f in fs]
-            if fs and ctx.rng.random() < 0.5:
-                c["eacces"] = True
+            sample_flags(ctx.rng, c, C)
             if C.klass() is None and ctx.rng.random() < 0.15:
                 # faults in the first fetch as well: any object a fresh cache has to receive
                 CC = Case(c)
                 pool = [(CC.fresh[gc], t) for r, gc, req in CC.groups(CC.map) for t in sorted(req)]
-                if pool:
+                if pool and c.get("efault") != "EEXIST":
                     c["ffails"] = [list(x) for x in ctx.rng.sample(pool, min(len(pool), ctx.rng.randint(1, 2)))]
             cases.append(c)
+    dims = {}
     for c in cases:
         C, obs, problems, inp, exp, nontrivial = run_one(ctx, c)
         ctx.case(c, nontrivial)
         for f in features(C, obs):
             ctx.count(f)
+        for dm in dimensions(C, obs):
+            dims[dm] = dims.get(dm, 0) + 1
         for sig, what in problems:
             ctx.oracle_fail(sig, what, c)
         items.append((c, inp, exp))
@@ -1083,6 +1494,7 @@ def run(ctx):
     ctx.correspond("getitem", IMPORTS, "smap * list key", "run_getitem", gi)
     ctx.correspond("pushfetch", IMPORTS, "scen", "run_scen", items, shard=60)
     ctx.extra["multi_cache_stream"] = MULTI_CACHE_STREAM
+    ctx.extra["input_dimensions"] = dict(sorted(dims.items()))
 
 
 def replay_case(ctx, case):
